@@ -4,6 +4,7 @@ import RbV.Ref.SAUnique
 import RbV.Model.Kasai
 import RbV.Model.Sus
 import RbV.Model.Transform
+import RbV.Model.SampledSA
 /-!
 # C03 — suffix array = sorted permutation of all suffixes; LCP; shortest unique substrings
 
@@ -154,5 +155,28 @@ theorem susRef_spec_none (t : List Nat) (p : Nat) (h : susRef t p = none) :
 
 example : (List.range 8).map (susRef [71, 67, 84, 71, 67, 84, 65, 36]) =
     [some 4, some 3, some 2, some 4, some 3, some 2, some 1, some 1] := by decide
+
+
+/-- **Mirror model of `SampledSuffixArray::get` is exact** (texts whose last symbol is their unique smallest
+symbol): for every sampling rate `s ≥ 1`, every Occ sampling rate `k ≥ 1` and every row `i`, the LF walk to the next
+sampled row (with the cached row for the BWT sentinel), run on the mirror models of `less()`, `Occ::new` and
+`Occ::get`, returns `sa[i]`.  Rests on the LF-mapping lemma (`RbV/Model/LFMap.lean`). -/
+theorem sampled_get_exact (t sa : List Nat) (s k m : Nat)
+    (hperm : sa.Perm (List.range t.length))
+    (hsorted : sa.Pairwise (fun i j => lexLt (t.drop i) (t.drop j)))
+    (hhead : sa.head? = some (t.length - 1))
+    (hpos : 0 < t.length)
+    (hmin : ∀ p, p < t.length → t.getD (t.length - 1) 0 ≤ t.getD p 0)
+    (huniq : ∀ p, p < t.length → t.getD p 0 = t.getD (t.length - 1) 0 → p = t.length - 1)
+    (hs : 0 < s) (hk : 0 < k) (hm : ∀ x ∈ t, x < m) (i : Nat) (hi : i < t.length) :
+    Sampled.sampledGet (bwtRef t sa) sa s (t.getD (t.length - 1) 0) (OccM.lessModel (bwtRef t sa) m)
+      (fun r c => OccM.occGet (OccM.occNewLoop (bwtRef t sa) k c) (bwtRef t sa) k r c) i = some (sa.getD i 0) :=
+  Sampled.sampled_get_correct_models t sa ⟨hperm, hsorted, hhead⟩ ⟨hpos, hmin, huniq⟩ s k hs hk m hm i hi
+
+example : (List.range 6).map (Sampled.sampledGet (bwtRef [99, 97, 98, 99, 97, 36] [5, 4, 1, 2, 3, 0])
+      [5, 4, 1, 2, 3, 0] 4 36 (OccM.lessModel (bwtRef [99, 97, 98, 99, 97, 36] [5, 4, 1, 2, 3, 0]) 101)
+      (fun r c => OccM.occGet (OccM.occNewLoop (bwtRef [99, 97, 98, 99, 97, 36] [5, 4, 1, 2, 3, 0]) 3 c)
+        (bwtRef [99, 97, 98, 99, 97, 36] [5, 4, 1, 2, 3, 0]) 3 r c))
+    = [some 5, some 4, some 1, some 2, some 3, some 0] := by decide
 
 end RbV.Thm.C03
